@@ -244,6 +244,7 @@ Fixpoint remap_ops (ms : list mapping) (ops : list op) : list op :=
     | Some m => OMap gc (m_src m) (m_oline m) (m_ocol m) None :: remap_ops ms r
     | None => remap_ops ms r
     end
+  | ONull _ :: r => remap_ops ms r      (* nothing to remap: dropped (the builder never emits one) *)
   end.
 
 Fixpoint strip_names (ops : list op) : list op :=
@@ -251,15 +252,16 @@ Fixpoint strip_names (ops : list op) : list op :=
   | [] => []
   | ONewline :: r => ONewline :: strip_names r
   | OMap gc si ol oc _ :: r => OMap gc si ol oc None :: strip_names r
+  | ONull gc :: r => ONull gc :: strip_names r
   end.
 
 Lemma remap_ops_app ms a b : remap_ops ms (a ++ b) = remap_ops ms a ++ remap_ops ms b.
 Proof.
-  induction a as [|[|gc si ol oc nm] a IH]; cbn [app remap_ops]; [reflexivity|rewrite IH; reflexivity|].
+  induction a as [|[|gc si ol oc nm|gc] a IH]; cbn [app remap_ops]; [reflexivity|rewrite IH; reflexivity| |exact IH].
   destruct (spec_find ms ol oc); rewrite IH; reflexivity.
 Qed.
 Lemma strip_names_app a b : strip_names (a ++ b) = strip_names a ++ strip_names b.
-Proof. induction a as [|[|gc si ol oc nm] a IH]; cbn [app strip_names]; rewrite ?IH; reflexivity. Qed.
+Proof. induction a as [|[|gc si ol oc nm|gc] a IH]; cbn [app strip_names]; rewrite ?IH; reflexivity. Qed.
 Lemma remap_newlines ms k : remap_ops ms (repeat ONewline k) = repeat ONewline k.
 Proof. induction k as [|k IH]; cbn [repeat remap_ops]; rewrite ?IH; reflexivity. Qed.
 Lemma strip_newlines k : strip_names (repeat ONewline k) = repeat ONewline k.
@@ -334,15 +336,16 @@ Definition strip_abs (a : abs) : abs := mkAbs (a_gline a) (a_gcol a) (a_src a) N
 
 Lemma abs_of_remap ms : forall ops l, abs_of (remap_ops ms ops) l = flat_map (remap_abs ms) (abs_of ops l).
 Proof.
-  induction ops as [|[|gc si ol oc nm] r IH]; intro l; cbn [remap_ops abs_of flat_map].
+  induction ops as [|[|gc si ol oc nm|gc] r IH]; intro l; cbn [remap_ops abs_of flat_map].
   - reflexivity.
   - apply IH.
   - unfold remap_abs at 1. cbn [a_src a_gline a_gcol]. destruct (spec_find ms ol oc); cbn [abs_of app]; rewrite IH; reflexivity.
+  - unfold remap_abs at 1. cbn [a_src app]. apply IH.
 Qed.
 
 Lemma abs_of_strip : forall ops l, abs_of (strip_names ops) l = map strip_abs (abs_of ops l).
 Proof.
-  induction ops as [|[|gc si ol oc nm] r IH]; intro l; cbn [strip_names abs_of map]; rewrite ?IH; reflexivity.
+  induction ops as [|[|gc si ol oc nm|gc] r IH]; intro l; cbn [strip_names abs_of map]; rewrite ?IH; reflexivity.
 Qed.
 
 Theorem composes_remaps_abs : forall text ms inames evs fin,
